@@ -30,6 +30,14 @@ Definition run_rec (oc : bool) (c : list Z) : list Z :=
   match c with
   | [1; table_addr; cr3; slot; e] =>
       match rec_new_at table_addr cr3 (table_with slot e) with Ok o => o | Panic => [PANIC] end
+  (* a table reference the harness cannot back with memory (upper half): only how far the
+     constructor gets - 43 = NotRecursive returned before anything is read, 42 = the address was
+     accepted as recursive and CR3 is read next *)
+  | [5; table_addr] =>
+      match rec_new_at table_addr 0 (fun _ => 0) with
+      | Ok o => if (match o with c :: _ => c =? E_NOT_RECURSIVE | [] => false end) then [43] else [42]
+      | Panic => [46]
+      end
   | [2; page; r] => enc (p3_page page r)
   | [3; page; r] => enc (p2_page page r)
   | [4; page; r] => enc (p1_page page r)
